@@ -138,3 +138,23 @@ Example g_example :
   M_LoopRange_shift (LoopRange_mk 0 (Some 5)) = Some (LoopRange_mk 0 (Some 4)) /\
   M_LoopRange_right_mul_is_exact (LoopRange_mk 3 (Some 4)) (LoopRange_mk 1 (Some 2)) = Some false.
 Proof. unfold gvalid, lr_valid, U32MAX; cbn. repeat split; try lia; vm_compute; reflexivity. Qed.
+
+(* impl Display for LoopRange: the printer never panics, never fails and only appends to the formatter's buffer;
+   the three abbreviations are "?", "*" and "+" *)
+Lemma g_fmt_total r f : exists out, M_LoopRange_fmt r f = Some (f ++ out, Ok tt).
+Proof.
+  unfold M_LoopRange_fmt, LoopRange_fmt. destruct r as [i [j|]].
+  - destruct i as [|[p|p|]]; (destruct j as [|[q|q|]]; [..]);
+      repeat match goal with |- context [if ?c then _ else _] => destruct c end; eexists; reflexivity.
+  - destruct i as [|[p|p|]]; eexists; reflexivity.
+Qed.
+Lemma g_fmt_abbrev f :
+  M_LoopRange_fmt (LoopRange_mk 0 (Some 1%N)) f = Some (f ++ [63%N], Ok tt) /\
+  M_LoopRange_fmt (LoopRange_mk 0 None) f = Some (f ++ [42%N], Ok tt) /\
+  M_LoopRange_fmt (LoopRange_mk 1 None) f = Some (f ++ [43%N], Ok tt).
+Proof. repeat split. Qed.
+Example g_fmt_example :
+  M_LoopRange_fmt (LoopRange_mk 2 (Some 15%N)) [] = Some ([91; 50; 46; 46; 49; 53; 93]%N, Ok tt) /\
+  M_LoopRange_fmt (LoopRange_mk 7 (Some 7%N)) [] = Some ([55%N], Ok tt) /\
+  M_LoopRange_fmt (LoopRange_mk 3 None) [] = Some ([91; 51; 46; 46; 105; 110; 102; 41]%N, Ok tt).
+Proof. vm_compute. repeat split. Qed.
